@@ -112,19 +112,20 @@ func (rw *RangeWriter) write(s string) (r parser.Range, err error) {
 	if rw.codeHash != nil && !rw.skipHash {
 		rw.codeHash.Write([]byte(s))
 	}
-	utf8Bytes := make([]byte, 4)
-	for _, c := range s {
-		rlen := utf8.EncodeRune(utf8Bytes, c)
+	for i := 0; i < len(s); {
+		// Bytes are written as they are: a byte that is not valid UTF-8 stays one byte (one column).
+		c, rlen := utf8.DecodeRuneInString(s[i:])
 		rw.Current.Col += uint32(rlen)
 		if c == '\n' {
 			rw.Current.Line++
 			rw.Current.Col = 0
 		}
-		_, err = rw.w.Write(utf8Bytes[:rlen])
+		_, err = io.WriteString(rw.w, s[i:i+rlen])
 		rw.Current.Index += int64(rlen)
 		if err != nil {
 			return r, err
 		}
+		i += rlen
 	}
 	r.To = rw.Current
 	return r, err
